@@ -75,6 +75,12 @@ def judge(desc: dict[str, Any], fault: str, wf: bool, why: str, col: common.Coll
                               f"{type(e).__name__} at stage {pr.stage.get(r)}, not with a "
                               f"diagnostic: {str(e)[:140]}", wit)
             else:
+                aff = distgen.affected_ranks(desc)
+                if not any(is_diagnostic(e) for r, e in raised.items() if r in aff):
+                    col.violation(f"C10:no-diagnostic-on-affected-ranks:{why}",
+                                  f"{fault}: ill-formed ({why}); diagnostics only on ranks "
+                                  f"{sorted(r for r, e in raised.items() if is_diagnostic(e))}, "
+                                  f"the defective operations belong to ranks {sorted(aff)}", wit)
                 col.count("mon.diagnosed")
                 col.histo("diagnostic", f"{why}:" + "+".join(sorted(
                     {type(e).__name__ for e in raised.values() if is_diagnostic(e)})))
